@@ -25,6 +25,9 @@ class RawView:
         return self.con.execute('SELECT rowid, key, raw, store_time, expire_time, access_time, access_count, tag, size,'
                                 ' mode, filename FROM Cache ORDER BY rowid').fetchall()
 
+    def sizes(self):
+        return dict(self.con.execute('SELECT rowid, size FROM Cache').fetchall())
+
     def settings(self):
         return dict(self.con.execute('SELECT key, value FROM Settings').fetchall())
 
